@@ -19,9 +19,9 @@ A12 = "{38, 62, 63, 64, 65, 66, 67, 68, 94, 95, 126, 127}"
 def g6(ctx, bins, name, directed, mode, maxn=0, maxlen=0, alphabet=A8, bigns="{}", args=(), timeout=1800):
     subst = dict(DIRECTED="TRUE" if directed else "FALSE", MODE=mode, MAXN=maxn, MAXLEN=maxlen,
                  ALPHABET=alphabet, BIGNS=bigns, SEED=ctx.seed, EMIT="TRUE")
-    cases = ctx.gen("codec/Graph6.tla", "codec/Graph6.cfg", subst=subst, name="R1+R2 gen graph6 " + name, timeout=timeout)
+    cases = ctx.gen("codec/Graph6.tla", "codec/Graph6.cfg", subst=subst, name="R1+R2 gen " + name, timeout=timeout)
     for bn, b in bins.items():
-        ctx.replay(b, "codec-graph6", cases, list(args), name="R2 replay graph6 %s [%s]" % (name, bn))
+        ctx.replay(b, "codec-graph6", cases, list(args), name="R2 replay %s [%s]" % (name, bn))
 
 
 def run_graph6(ctx, bins):
@@ -47,11 +47,23 @@ def run_graph6(ctx, bins):
         g6(ctx, bins, fam + " header grid", d, "hdr", bigns="{0, 1, 2, 3, 5, 62, 63, 64}")
 
 
+def run_mat(ctx, bins):
+    for mode, what in (("enc", "values 1..4 x 1..4, 11 bit patterns, 3 representations"),
+                       ("hdr", "dimension grid 13 x 13 values x payload lengths"),
+                       ("fields", "every other header field alone and in pairs"),
+                       ("trunc", "every truncation / extension of valid encodings")):
+        cases = ctx.gen("codec/MatBinary.tla", "codec/MatBinary.cfg", subst=dict(MODE=mode, SEED=ctx.seed, EMIT="TRUE"),
+                        name="R1+R2 gen mat binary %s (%s)" % (mode, what))
+        for bn, b in bins.items():
+            ctx.replay(b, "codec-mat", cases, name="R2 replay mat binary %s [%s]" % (mode, bn))
+
+
 def run(ctx):
     builds = [("default", "")]
     bins = {n: ctx.build(t) for n, t in builds}
 
     run_graph6(ctx, bins)
+    run_mat(ctx, bins)
 
     ctx.assumptions += [
         "TLC/SANY and the CommunityModules Json module are trusted",
